@@ -7,11 +7,13 @@ import (
 	"fmt"
 	"math/rand"
 	"net/http"
+	"time"
 	"strings"
 	"unicode/utf8"
 
 	"verif/harness/internal/coqgen"
 	"verif/harness/internal/idp"
+	"verif/harness/internal/sso"
 	"verif/harness/internal/xhtml"
 )
 
@@ -259,6 +261,62 @@ func Run(dir, tier string, seed int64) error {
 			}
 		}
 	}
-	run.Res.Rule = "both templates rendered through the provider's own template objects (verif hook) for every byte value in each of the three positions, 35 hostile strings (quotes, tags, entity look-alikes, NUL, CR/LF, invalid UTF-8, script/data URLs, scheme-less and mixed-case URLs) in every position, random strings over a metacharacter alphabet, and values up to 64 KiB; each page is compared byte for byte with the Coq model (pages < 20 kB) and tokenised with the vendored x/net/html tokenizer (one form, two hidden fields with exactly the values, no active element, no script URL); every hostile string is additionally sent through the real endpoints (login callback with it as stored RelayState / ACS URL, /SLO with it as RelayState / registered SLO location) and the page sent is compared byte for byte with the template rendering of the same values. distinct = (input class, template, page length class)."
+	// end-to-end through /SSO: the RelayState of the request itself, over both transports, is reflected in the error page
+	// (a request the IdP refuses but can answer) and handed to the storage (a request the IdP accepts) exactly as it was sent
+	{
+		env.Storage.ClearSPs()
+		spm := sso.BaseSP(nil, true)
+		if _, err := env.Storage.Register("app-1", spm); err != nil {
+			return err
+		}
+		now := time.Now().UTC().Format("2006-01-02T15:04:05Z")
+		mkReq := func(dest string) string {
+			return `<samlp:AuthnRequest xmlns:samlp="urn:oasis:names:tc:SAML:2.0:protocol" xmlns:saml="urn:oasis:names:tc:SAML:2.0:assertion" ID="_c17" Version="2.0" IssueInstant="` + now + `" Destination="` + dest + `" ProtocolBinding="` + idp.PostBinding + `"><saml:Issuer>` + sso.SPEntity + `</saml:Issuer></samlp:AuthnRequest>`
+		}
+		relays := append([]string{}, hostile...)
+		relays = append(relays, "before\x00after", "\x00", "\x00\x00tail", "a b+c%20d", "k=v&SAMLRequest=x", "x;y", " lead", "trail ", "tab\tin", strings.Repeat("r", 80))
+		for i, h := range relays {
+			for tr, transport := range []string{"post", "redirect"} {
+				for ok, instant := range []string{"https://elsewhere.example/SSO", sso.SSOLoc} {
+					var spec idp.ReqSpec
+					if transport == "post" {
+						spec = idp.ReqSpec{Method: http.MethodPost, Path: "/SSO", Body: []idp.Param{idp.Q("SAMLRequest", idp.B64([]byte(mkReq(instant)))), idp.Q("RelayState", h)}}
+					} else {
+						spec = idp.ReqSpec{Method: http.MethodGet, Path: "/SSO", Query: []idp.Param{idp.Q("SAMLRequest", idp.DeflateB64([]byte(mkReq(instant)))), idp.Q("RelayState", h)}}
+					}
+					before := len(env.Storage.Requests)
+					rep := env.Do(spec.HTTP())
+					fid := 200000 + i*8 + tr*2 + ok
+					in := map[string]interface{}{"relay": h, "transport": transport, "request_valid": ok == 1}
+					run.Res.Evaluations++
+					switch rep.Kind {
+					case "saml-post":
+						run.Count("sso-e2e-error-page")
+						pi := tokenize(rep.Body)
+						want := strings.ReplaceAll(h, "\x00", "\uFFFD")
+						if got := pi.inputs["RelayState"]; got != want && got != htmlNewlines(want) {
+							run.Fail(coqgen.Failure{ID: fid, Class: "request-relaystate-not-reflected-exactly", What: fmt.Sprintf("the page /SSO sends carries RelayState %q, the request had %q", got, h), Input: in})
+						}
+					case "login-redirect":
+						run.Count("sso-e2e-accepted")
+						if len(env.Storage.Requests) != before+1 {
+							break
+						}
+						for _, a := range env.Storage.Requests {
+							if a.AuthReqID == "_c17" {
+								if a.RelayState != h {
+									run.Fail(coqgen.Failure{ID: fid, Class: "request-relaystate-not-stored-exactly", What: fmt.Sprintf("the storage was handed RelayState %q, the request had %q", a.RelayState, h), Input: in})
+								}
+								delete(env.Storage.Requests, a.ID)
+							}
+						}
+					default:
+						run.Count("sso-e2e-other:" + rep.Kind)
+					}
+				}
+			}
+		}
+	}
+	run.Res.Rule = "both templates rendered through the provider's own template objects (verif hook) for every byte value in each of the three positions, 35 hostile strings (quotes, tags, entity look-alikes, NUL, CR/LF, invalid UTF-8, script/data URLs, scheme-less and mixed-case URLs) in every position, random strings over a metacharacter alphabet, and values up to 64 KiB; each page is compared byte for byte with the Coq model (pages < 20 kB) and tokenised with the vendored x/net/html tokenizer (one form, two hidden fields with exactly the values, no active element, no script URL); every hostile string is additionally sent through the real endpoints (login callback with it as stored RelayState / ACS URL, /SLO with it as RelayState / registered SLO location) and the page sent is compared byte for byte with the template rendering of the same values; every hostile RelayState (plus NUL-containing, separator-containing and 80-byte ones) is sent to /SSO over both transports with a refused and an accepted request, and the error page / the value handed to the storage must carry it exactly. distinct = (input class, template, page length class)."
 	return run.Finish()
 }
